@@ -3,6 +3,8 @@ package props
 import (
 	"fmt"
 	"path/filepath"
+	"runtime"
+	"sync"
 	"unsafe"
 
 	"github.com/couchbase/nitro"
@@ -19,6 +21,11 @@ func runC07(c *rt.C) {
 	mem := []string{"poison", "pageguard"}[c.Index%2]
 	if c.Index%16 >= 14 {
 		nodeListLifecycle(c, mem)
+		c.Evals(1)
+		return
+	}
+	if c.Index%16 >= 12 {
+		closeDuringBackup(c, mem)
 		c.Evals(1)
 		return
 	}
@@ -85,7 +92,7 @@ func c07Restore(c *rt.C, mem string) {
 		return
 	}
 	// mutate the restored instance
-	h2 := &Hist{DB: fresh, Model: NewModel(), NKeys: nkk, Versions: map[int]int{}}
+	h2 := &Hist{DB: fresh, Model: fresh.NewModel(), NKeys: nkk, Versions: map[int]int{}}
 	for _, e := range target.Want {
 		h2.Model.live[e.Key] = e.Item
 	}
@@ -169,6 +176,50 @@ func nodeListLifecycle(c *rt.C, mem string) {
 	c.Sample(witness)
 }
 
+// closeDuringBackup: Close() is called while a backup is scanning (the supported shutdown
+// path: StoreToDisk notices the shutdown, aborts and releases its snapshot reference, Close
+// then proceeds). Whatever StoreToDisk returns, after both have returned every block must have
+// been released exactly once.
+func closeDuringBackup(c *rt.C, mem string) {
+	r := c.Rng
+	delta := r.Intn(2) == 0
+	db := OpenDB(DBOpt{Mem: mem, Delta: delta, KV: r.Intn(2) == 0})
+	nk := pick(r, 50, 400, 1500)
+	h := BuildHistory(r, db, HistOpt{NKeys: nk, Epochs: 1 + r.Intn(3), OpsPerEpoch: nk + r.Intn(nk), KeepProb: 0, Writers: 2, DeleteBias: 25})
+	target := h.Snaps[len(h.Snaps)-1]
+	h.Snaps = nil
+	after := 1 + r.Intn(len(target.Want)+1)
+	reached := make(chan struct{})
+	var once sync.Once
+	n := 0
+	errc := make(chan error, 1)
+	go func() {
+		errc <- db.N.StoreToDisk(filepath.Join(c.Tmp, "bk"), target.S, pick(r, 1, 4), func(*nitro.ItemEntry) {
+			n++
+			if n >= after {
+				once.Do(func() { close(reached) })
+				runtime.Gosched()
+			}
+		})
+	}()
+	// wait until the scan is under way (or the backup finished early), then shut down
+	var serr error
+	finished := false
+	select {
+	case <-reached:
+	case serr = <-errc:
+		finished = true
+	}
+	db.N.Close()
+	if !finished {
+		serr = <-errc
+	}
+	witness := map[string]interface{}{"mem": mem, "delta": delta, "items": len(target.Want), "close_after_items": after, "store_result": fmt.Sprint(serr), "alloc": db.A.Stats()}
+	reportAlloc(c, db.A, witness, "after Close() raced a running StoreToDisk")
+	c.Sig("close-during-backup/delta=%v/result=%v/mem=%s", delta, serr == nil, mem)
+	c.Sample(witness)
+}
+
 func reportAlloc(c *rt.C, a *galloc.Alloc, witness interface{}, where string) {
 	a.CheckQuarantine()
 	for _, v := range a.Violations() {
@@ -186,7 +237,7 @@ func init() {
 	rt.Register(&rt.Prop{
 		ID: "C07", Level: "exploration",
 		Technique: "runtime monitoring: exact per-block shadow live-set of the allocator passed through Config.UseMemoryMgmt (leak = live set non-empty after Close; double / invalid free recorded when it happens)",
-		Rule: "user-managed memory, alternating poison / pageguard. Lifecycles rotate over: contention engine (rejected Puts, same-epoch and cross-epoch deletes by several writers), ownership engine with random/newest-first/oldest-last/permuted close orders, GC() storms and scanners, the same with a trailing write phase and Close() while garbage is pending in the writers' lists, backup (delta on/off) → LoadFromDisk into a fresh instance on the same allocator (every second time with a writer created before the restore) → further mutation → Close of both, and nodes chained in the library's NodeList with one of them removed and deleted in its own epoch. After Close() the live set must be empty and no double/invalid free may have been recorded. " +
+		Rule: "user-managed memory, alternating poison / pageguard. Lifecycles rotate over: contention engine (rejected Puts, same-epoch and cross-epoch deletes by several writers), ownership engine with random/newest-first/oldest-last/permuted close orders, GC() storms and scanners, the same with a trailing write phase and Close() while garbage is pending in the writers' lists, backup (delta on/off) → LoadFromDisk into a fresh instance on the same allocator (every second time with a writer created before the restore) → further mutation → Close of both, nodes chained in the library's NodeList with one of them removed and deleted in its own epoch, and Close() called while a backup is scanning (the supported shutdown path). After Close() the live set must be empty and no double/invalid free may have been recorded. " +
 			"evaluations = lifecycles; distinct = lifecycle configuration tuples",
 		Assumptions: []string{"every snapshot/iterator handle is closed exactly once before Close()", "failed loads are outside the statement and not judged"},
 		Cases: func(t string) int {
